@@ -91,24 +91,26 @@ def trigger_times(spec, entry, objects, changes):
     if spec['k'] == 'delay':
         return {entry + spec['d']}
     changes = sorted(changes, key=lambda change: change['t'])
+    candidates = sorted({entry} | {c['t'] for c in changes if c['t'] > entry}
+                        | {d for d in dates_in(spec) if d > entry})
     results = set()
-    for entry_sees_change in (False, True):
-        state = state_at(objects, changes, entry, inclusive=entry_sees_change)
-        found = NEVER
-        if holds(spec, state, entry):
-            found = entry
-        else:
-            if not entry_sees_change:
-                state = state_at(objects, changes, entry, inclusive=True)
-                if holds(spec, state, entry):
-                    found = entry
-            if found is NEVER:
-                candidates = sorted({c['t'] for c in changes if c['t'] > entry}
-                                    | {d for d in dates_in(spec) if d > entry})
-                for when in candidates:
-                    state = state_at(objects, changes, when, inclusive=True)
-                    if holds(spec, state, when):
-                        found = when
-                        break
-        results.add(found)
+
+    def scan(position):
+        """the notification has not fired before candidates[position]"""
+        if position >= len(candidates):
+            results.add(NEVER)
+            return
+        when = candidates[position]
+        before = holds(spec, state_at(objects, changes, when, inclusive=False), when)
+        after = holds(spec, state_at(objects, changes, when, inclusive=True), when)
+        if after:
+            results.add(when)           # holds at the end of the time step: fires in it
+            return
+        if before:
+            # holds when the time step begins (a date is reached, or it held on entry) but a
+            # change in the same step makes it false again: whether the subscriber / observer
+            # looks before or after that change is order inside the step - both admissible
+            results.add(when)
+        scan(position + 1)
+    scan(0)
     return results
